@@ -105,6 +105,8 @@ namespace occa {
         // Get argument
         arg.expr = tokenContext.parseExpression(smntContext,
                                                 parser);
+        // parseExpression() reports the error and returns NULL
+        success &= !!arg.expr;
         if (!success) {
           tokenContext.pop();
           arg.clear();
